@@ -20,6 +20,9 @@ type WOp struct {
 	Mint    int64     `json:"mint,omitempty"`
 	Maxt    int64     `json:"maxt,omitempty"`
 	Sel     []int     `json:"sel,omitempty"`
+	// Nested: a transaction that is not run by the main loop but from inside a hook of the
+	// following compactooo_race operation (while the out-of-order compaction is paused there)
+	Nested bool `json:"nested,omitempty"`
 }
 
 // Workload is a history plus the database options.
@@ -28,6 +31,9 @@ type Workload struct {
 	BlockRange int64  `json:"block_range"`
 	OOOWindow  int64  `json:"ooo_window"`
 	Ops        []WOp  `json:"ops"`
+	// NoModel: the history interleaves operations (a commit inside a compaction); its cases are
+	// judged by `holds` on the acknowledgement log only
+	NoModel bool `json:"no_model,omitempty"`
 }
 
 // corpusMixedMerge is the reproducer of the finding "mixed-merge-advances-minvalidtime".
@@ -45,6 +51,32 @@ func corpusMixedMerge() Workload {
 		{Kind: "tx", Samples: mk(1, 0, 600, 1100, 1600, 2050, 2600, 3200, 3500)},
 		{Kind: "tx", Samples: mk(1, 2100, 3100)},
 		{Kind: "compact"},
+	}}
+}
+
+// corpusDeleteStraddle: a deletion acknowledged while its whole range is in the head, then a head
+// compaction whose block boundary (2000) falls strictly inside the deleted range: after a
+// restart the tombstone record straddles minValidTime and must still hide 2200 and 2400.
+func corpusDeleteStraddle() Workload {
+	return Workload{Name: "corpus-delete-straddles-block-boundary", BlockRange: 1000, OOOWindow: 0, Ops: []WOp{
+		{Kind: "tx", Samples: []WSample{{1, 100, 1}, {2, 1600, 2}, {1, 1700, 3}, {2, 1800, 4}, {2, 2200, 5}, {1, 2300, 6}, {2, 2400, 7}, {2, 2600, 8}, {1, 3400, 9}}},
+		{Kind: "delete", Mint: 1500, Maxt: 2500, Sel: []int{2}},
+		{Kind: "compact"},
+		{Kind: "tx", Samples: []WSample{{1, 3450, 10}, {2, 3460, 11}}},
+	}}
+}
+
+// corpusOOORace: out-of-order samples are committed (and acknowledged) while DB.CompactOOOHead
+// is paused inside NewOOOCompactionHead, once before the WBL segment cut and once after the
+// per-series m-map loop; after truncateOOO both must survive a kill.
+func corpusOOORace() Workload {
+	return Workload{Name: "corpus-ooo-commit-during-ooo-compaction", BlockRange: 1000, OOOWindow: 2000, NoModel: true, Ops: []WOp{
+		{Kind: "tx", Samples: []WSample{{1, 100, 1}, {1, 600, 2}, {2, 700, 3}, {1, 1200, 4}, {2, 1300, 5}}},
+		{Kind: "tx", Samples: []WSample{{1, 300, 6}, {2, 400, 7}}},
+		{Kind: "tx", Nested: true, Samples: []WSample{{1, 350, 8}}},
+		{Kind: "tx", Nested: true, Samples: []WSample{{2, 450, 9}}},
+		{Kind: "compactooo_race"},
+		{Kind: "tx", Samples: []WSample{{1, 1400, 10}}},
 	}}
 }
 
@@ -179,6 +211,37 @@ func genWorkload(r *gen.Rand, name string, phases int) Workload {
 						for t := a; t <= b && t <= globalMax; t++ {
 							used[[2]int64{int64(s), t}] = true
 						}
+					}
+				}
+			}
+		}
+		if globalMax > 1700 && r.Chance(1, 2) {
+			// a deletion around the block boundary the coming head compaction will most likely stop
+			// at: its tombstone record then straddles minValidTime at the next open
+			b := ((globalMax-1500)/1000 + 1) * 1000
+			a, e := b-int64(100+r.Intn(400)), b+int64(100+r.Intn(400))
+			var sel []int
+			for s := 2; s <= nser; s++ {
+				if r.Chance(2, 3) {
+					sel = append(sel, s)
+				}
+			}
+			ok := len(sel) > 0 && a >= 0
+			for _, s := range sel {
+				for t := range oooTimes[s] {
+					if t >= a && t <= e {
+						ok = false
+					}
+				}
+			}
+			if ok {
+				w.Ops = append(w.Ops, WOp{Kind: "delete", Mint: a, Maxt: e, Sel: sel})
+				for _, s := range sel {
+					if oooTimes[s] == nil {
+						oooTimes[s] = map[int64]bool{}
+					}
+					for t := a; t <= e && t <= globalMax; t++ {
+						used[[2]int64{int64(s), t}] = true
 					}
 				}
 			}
